@@ -91,12 +91,22 @@ static void check_acks(PROC *p) {               // called whenever the notified 
 //  0 none; 1 a producer call during the first Export; 2 producer call + flush ticket during the first Export;
 //  3 producer call + flush ticket during the exporter's ForceFlush; 4 flush ticket during the first Export; 5 = 2 and 3 together
 static int g_export_calls_seen, g_flush_calls_seen;
+extern "C" { extern uint32_t verif_thread_id; }
+static bool g_second_shutdown_returned, g_second_shutdown_ok; static int g_expect_total;
+//  6 another thread may call Shutdown while the first Shutdown is draining (inside the first Export of the drain)
 static void others_act(PROC *p, bool in_force_flush) {   // a concurrent producer / ForceFlush caller, while the worker is inside the exporter
   if (!in_force_flush) {
     g_export_calls_seen++;
     if (g_export_calls_seen == 1) {
       if (INTERFERE == 1 || INTERFERE == 2 || INTERFERE == 5) produce_one(p);
       if (INTERFERE == 2 || INTERFERE == 4 || INTERFERE == 5) issue_ticket(p);
+      if (INTERFERE == 6 && nondet_bool()) {      // a second thread calls Shutdown now; if it has to wait for the first caller this branch ends in the mutex model
+        verif_thread_id = 1;
+        p->Shutdown(std::chrono::microseconds(1000));
+        verif_thread_id = 0;
+        g_second_shutdown_returned = true;
+        g_second_shutdown_ok = g_nexported == g_expect_total && g_shutdown_calls == 1;
+      }
     }
   } else {
     g_flush_calls_seen++;
@@ -213,10 +223,12 @@ ENTRY h_shutdown() {
   auto *p = make_proc();
   const int k = KITEMS;
   produce(p, k);
+  g_expect_total = k;
   bool b = nondet_bool();
   p->Shutdown(std::chrono::microseconds(b ? 0 : 1000));
   VASSERT(fifo_exact(k) && g_size_ok, "Shutdown exports everything produced before it, once, in bounded batches");
   VASSERT(g_shutdown_calls == 1 && g_no_export_after_shutdown, "Shutdown shuts the exporter down exactly once, after the last Export");
+  VASSERT(!g_second_shutdown_returned || g_second_shutdown_ok, "a Shutdown call returns only after everything produced before it was exported and the exporter was shut down (also when another Shutdown is in progress)");
   int batches = g_batches, flushes = g_flush_calls;
   PRODUCE(p, std::unique_ptr<sdkx::Recordable>(new TokRec(99)));
   bool ff = p->ForceFlush(std::chrono::microseconds(1000));
